@@ -21,6 +21,8 @@ DOC = {
  "C18.R2": "every call of candidates_for_peer passes the constant authenticated_only = true; check_candidate pushes at most the caller's own id",
  "C18.R3": "commit: every path from the Some(election) edge reaches the loop that stops the losers (before any early return); authenticated callback on the survives edge; ready callback on the is_elected edge; the session stops itself when not elected",
  "C18.R5": "check_session: the compatibility answer from the authenticated topology (and every direct Duplicate/This/Other answer) is dominated by the true edge of `matching registrations is empty`; a unique registration goes to check_candidate",
+ "C18.R6": "a session casts ConnectionReady only on a transition into Ready (the dominating ReadyState match arms exclude Ready)",
+ "C18.R7": "elect_sessions orders candidates by their (node-local) actor ids only on the true edge of `all candidates are server-side`, evaluated after the narrowing retains",
  "C18.R4": "direction by comparing the peer name with this node's name (both parameters); nonce minimum over Some nonces; zero nonce maps to None via NonZeroU64::new",
 }
 
@@ -218,9 +220,72 @@ def r5(run, db):
     run.check(len(cc) == 1, "unique->check_candidate", "a uniquely identified caller is judged by check_candidate", "check_candidate calls: %d" % len(cc), f.where())
 
 
+def r6(run, db):
+    """`node events report exactly one ready session per peer`: the node server emits one ready event per ConnectionReady it
+    receives from an elected session, so a session must cast ConnectionReady once -- only on the transition into Ready, never
+    when it is already Ready (a duplicated Ready frame from the peer must stay without effect)."""
+    RS = ["Open", "SyncSent", "SyncReceived", "Ready"]
+    n = 0
+    for f in db.crate_fns(RC):
+        if "::tests::" in f.id or "node_session" not in (f.file or ""):
+            continue
+        for site, st in f.aggregates(adt="NodeServerMessage", variant="ConnectionReady"):
+            n += 1
+            adm = set(RS)
+            gates = 0
+            for sw_site, t in f.switches():
+                info = f.switch_info(sw_site)
+                if info.get("kind") != "enum" or not str(info.get("disc_adt") or info.get("disc_ty") or "").endswith("ReadyState"):
+                    continue
+                by_t = {}
+                for nm, tgt in info["edges"].items():
+                    if nm in RS:
+                        by_t.setdefault(tgt, set()).add(nm)
+                for tgt, names in by_t.items():
+                    if f.edge_dominates((sw_site.bb, tgt), site):
+                        gates += 1
+                        adm &= names
+            aa = [c for c in f.calls() if c.callee and c.callee.endswith("::after_authenticated")]
+            if aa and any(f.dominates(c.site, site) for c in aa):
+                run.ok("ready-cast-after-authentication:%s" % f.id.split("::")[-2], "ConnectionReady is cast right after after_authenticated(), which runs once per session (C17.R3: only on the not-authenticated -> authenticated transition)", f.where(st.get("l")))
+                continue
+            run.check(gates >= 1 and "Ready" not in adm, "ready-cast-only-on-transition:%s" % f.id.split("::")[-2], "ConnectionReady is cast only from the states %s (never when the session is already Ready)" % sorted(adm),
+                      "ConnectionReady is cast %s: a duplicated Ready frame makes the node report the same session ready again (two ready sessions for one peer)" % ("also when the session is already Ready" if gates else "without testing the ready state"), f.where(st.get("l")))
+    run.anchor("ConnectionReady cast sites", n, 2)
+
+
+def r7(run, db):
+    """actor ids are local to a node, so an order on them is not the same on both ends of a link.  They may decide between
+    candidates only where the other end defers to this decision: on the accepting side, i.e. when *every* remaining
+    candidate is a server-side session (the accept reply tells the initiator which connection survived).  If the initiating
+    side also breaks such a tie by its own ids, each node closes the connection the other kept."""
+    f = run.need(db.fn("ractor_cluster::node::elect_sessions"), "node::elect_sessions")
+    run.saw(len(f.blocks), f)
+    def closure_returns_field(call, argi, field, negated=False):
+        for r in f.origins(call.args[argi]):
+            g = db.fns.get(r["stmt"]["rv"].get("def")) if r["k"] == "agg" else None
+            if g is None:
+                continue
+            rets = g.origins([0, []])
+            for rr in rets:
+                names = [proj_field_name(e) for e in rr.get("proj", []) + rr.get("trail", []) if e.startswith("f:")]
+                if field in names and not g.switches():
+                    return True
+        return False
+    mins = [c for c in f.calls() if c.matches(r"Iterator::(min|max|min_by_key|max_by_key|min_by|max_by)$") and any(
+        r["k"] == "call" and r["call"].matches(r"Iterator::map$") and closure_returns_field(r["call"], 1, "actor_id") for r in f.origins(c.args[0]))]
+    run.anchor("order on local actor ids", len(mins), 1, f.where())
+    alls = [c for c in f.calls() if c.matches(r"Iterator::all$") and closure_returns_field(c, 1, "is_server")]
+    retains = [c for c in f.calls() if c.matches(r"Vec::<T, A>::retain$")]
+    for c in mins:
+        good = [a for a in alls if true_edge(f, a) and f.edge_dominates(true_edge(f, a), c.site) and all(f.reaches_after(r.site, a.site) for r in retains if f.reaches_after(r.site, c.site) and not f.reaches_after(c.site, r.site) and r.site != c.site and not f.dominates(c.site, r.site))]
+        run.check(bool(good), "id-order-only-among-accepted", "the order on local actor ids is used only when all remaining candidates are server-side sessions (tested after the narrowing)",
+                  "elect_sessions breaks a tie by local actor ids without having established that every remaining candidate is an accepted (server-side) connection: the initiating node then decides by its own ids, the acceptor by its own, and each closes the connection the other kept", c.where())
+
+
 Q = ["rc"]
 TH = ["rc", "rcatr"]
-RULES = [{"id": "C18.R%d" % i, "fn": f, "quick": Q, "thorough": TH} for i, f in enumerate([r1, r2, r3, r4, r5], 1)]
+RULES = [{"id": "C18.R%d" % i, "fn": f, "quick": Q, "thorough": TH} for i, f in enumerate([r1, r2, r3, r4, r5, r6, r7], 1)]
 from .positive import control
 RULES.append({"id": "C18.P", "fn": control('positional'), "quick": ["pos"], "thorough": ["pos"]})
 DOC["C18.P"] = 'positive control: planted positional/first-match election must be reported by the order-sensitivity detector'
